@@ -6,6 +6,7 @@ import (
 	"errors"
 	"fmt"
 	"math"
+	"math/big"
 	"testing"
 
 	"github.com/onflow/crypto"
@@ -573,7 +574,11 @@ func c09DKG(g *gen.G) {
 			orig = g.Pick("origIn", n)
 		}
 		var data []byte
-		switch g.Int("payloadKind", 0, 5) {
+		switch g.Int("payloadKind", 0, 7) {
+		case 6: // a well-formed complaint answer (valid scalar) naming a participant in range
+			data = append([]byte{sim.TagAnswer, byte(g.Pick("answerFor", n))}, scalarBytes(big.NewInt(int64(1+g.Int("answerVal", 0, 1000))))...)
+		case 7: // a well-formed complaint against a participant in range
+			data = []byte{sim.TagComplaint, byte(g.Pick("complaintAgainst", n))}
 		case 0:
 			data = real[g.Pick("real", len(real))]
 		case 1: // a real payload, mutated
